@@ -344,6 +344,8 @@ func runC10(c *Ctx) {
 	R.Require("S.accept-loop", 6, "")
 	R.Require("S.role-closure", 40, "")
 	c.handlerSetRule()
+	// a frame must not keep the reader busy for ever: the loop that files the messages of one read ends with the batch
+	c.eachOnceRule()
 	R.Explain = "Panic freedom of everything a TCP client can drive: the per-connection roles of both servers are interpreted abstractly from the state their constructors establish " +
 		"(newConnection → reader / write, newSessionManager → run, attachment newConnection → run with the default data handler, stream handlers and file event explored through dynamic dispatch), for arbitrary Read results and byte contents; " +
 		"callees in other packages, goroutine bodies and targets of unresolved dynamic calls are analysed as entries with arbitrary arguments until the set is closed, together with all decoder entry points (handlers that parse every body). " +
